@@ -374,6 +374,7 @@ def doc_view(s, d):
 
 
 class C09(Base):
+    ncases_thorough = 120000
     rule = ('histories (as C03, plus block formats, times, helper objects) ending in deepCopy or deepCopyTo, followed by '
             'a mutation suffix generated from the real post-copy pool on either side; non-trivial = distinct histories '
             'whose copied document holds at least three elements and one reference')
@@ -795,6 +796,7 @@ def scene_c16(rng):
 
 
 class C16(Base):
+    ncases_thorough = 100000
     rule = ('scenes with programmes (with/without end), contents, nested objects with and without durations, shared and '
             'unshared channel formats of all five types with 1-6 blocks, decimal and fractional times, with and without a '
             'file length; the expected outcome is recomputed with exact fractions from the snapshot; non-trivial = distinct '
